@@ -38,6 +38,17 @@ def cleanup():
     _scratch.clear()
 
 
+def _enumerate(module, cfg, un, workers, coverage=False, timeout=1500):
+    """TLC with -dump (like ftable.enumerate_states, but without -coverage, which slows the evaluation noticeably; the
+    callers prove non-vacuity from the dumped states)"""
+    st = tlc.run_tlc(module, cfg, un, workers=workers, dump=True, coverage=coverage, timeout=timeout)
+    if st.get("timeout"):
+        raise MachineryError(f"TLC timed out on {un}")
+    if st.get("error") and not st.get("violation"):
+        raise MachineryError(f"TLC error on {un}: {st['error'][:600]}")
+    return st
+
+
 def tlc_jobs(jobs, total_workers=16, max_concurrent=3):
     """jobs: {name: (module, cfg, dump)}; at most max_concurrent TLC processes at a time, 4..6 workers each -> {name: stats}"""
     from concurrent.futures import ThreadPoolExecutor
@@ -49,8 +60,8 @@ def tlc_jobs(jobs, total_workers=16, max_concurrent=3):
         un = uniq(name)
         _note_tlc(un)
         if dump:
-            return name, ftable.enumerate_states(module, cfg, un, workers=w)
-        st = tlc.run_tlc(module, cfg, un, workers=w, timeout=1500)
+            return name, _enumerate(module, cfg, un, w)
+        st = tlc.run_tlc(module, cfg, un, workers=w, coverage=False, timeout=1500)
         if st.get("timeout"):
             raise MachineryError(f"TLC timed out on {name}")
         return name, st
@@ -58,15 +69,16 @@ def tlc_jobs(jobs, total_workers=16, max_concurrent=3):
         return dict(ex.map(one, jobs.items()))
 
 
-def enumerate_states(module, cfg, name, workers=6, **kw):
+def enumerate_states(module, cfg, name, workers=6, coverage=False, **kw):
     un = uniq(name)
     _note_tlc(un)
-    return ftable.enumerate_states(module, cfg, un, workers=workers, **kw)
+    return _enumerate(module, cfg, un, workers, coverage=coverage, **kw)
 
 
 def run_tlc(module, cfg, name, workers=6, **kw):
     un = uniq(name)
     _note_tlc(un)
+    kw.setdefault("coverage", False)
     return tlc.run_tlc(module, cfg, un, workers=workers, **kw)
 
 
